@@ -67,6 +67,7 @@ struct vsock {
 	int rep_in, rep_out;	/* the latest poll reported this (non-spuriously); self-check of truthfulness */
 	int sigpipe;		/* a send without MSG_NOSIGNAL hit a closed peer */
 	int nonblock;		/* O_NONBLOCK is set (fcntl F_SETFL) */
+	int from_socket;	/* created by socket(2), i.e. by the code under test (descriptor accounting) */
 	/* bulk transfer (not logged byte by byte): bytes are identified by their address in the caller's buffer */
 	const uint8_t * bulk_base;
 	size_t bulk_len, bulk_sent;
